@@ -875,6 +875,7 @@ def half_typed_cases(rng, n):
     for _ in range(n):
         html = rng.random() < 0.7
         last, groups, known = half_element(rng, html)
+        from_prim = False
         r = rng.random()
         if r < 0.3:
             abbr = last
@@ -890,6 +891,7 @@ def half_typed_cases(rng, n):
             pre, pg = prim_seq(rng, 1, html)
             abbr = '%s+%s' % (pre if '>' not in pre else '(%s)' % pre, last)
             groups = pg + groups
+            from_prim = True
         if rng.random() < 0.12:
             abbr = '(' + abbr                             # the whole thing inside a group that is not closed yet
         syn = rng.choice(fu.HTML_SYNTAXES if html else fu.INDENT_SYNTAXES)
@@ -899,7 +901,9 @@ def half_typed_cases(rng, n):
         cos['output.newline'] = rng.choice(NEWLINES)
         cfg = bem_layer(rng, fu.with_options(cfg, cos), 0.5, abbr)
         meta = {'explicit': fu.has_explicit_field(abbr), 'distinct': True, 'half': True}
-        if known and not (html and cfg['options'].get('comment.enabled') and PRIMARY_FIELD_ATTR_RE.search(abbr)):
+        if known and not (html and from_prim and cfg['options'].get('comment.enabled')):
+            # (as in primary_field_cases: with comments on, the html family repeats id / class -- fields included -- inside
+            # the comment; those runs are held to "all indices differ" only)
             meta['groups'] = groups
         out.append((abbr, cfg, meta))
     return out
